@@ -1,18 +1,25 @@
 from propcommon import COMMON_MODELLED
 PROP = dict(
     gotest="TestC09",
-    model="coq/Models/PerpLedger.v (per-field aggregates over stored MTPs, open counter, CheckMinimumCustodyAmt)",
-    coq_deps=["Base/", "Models/SumLedger.v", "Proofs/SumLedgerProofs.v", "Models/PerpLedger.v", "Proofs/PerpLedgerProofs.v", "Run/PerpLedgerRun.v", "Props/C09.v"],
+    extra_gotests=[("TestZdec", "Zdec")],
+    model="coq/Models/PerpLedger.v (per-field aggregates over stored MTPs, open counter) + coq/Models/PerpBacking.v (per asset amm reserve vs recorded custody: primitive moves with the CheckMinimumCustodyAmt placement as coded, non-atomic MsgClosePositions items, funding distribution value)",
+    coq_deps=["Base/", "Models/SumLedger.v", "Proofs/SumLedgerProofs.v", "Models/PerpLedger.v", "Proofs/PerpLedgerProofs.v", "Run/PerpLedgerRun.v", "Models/PerpBacking.v", "Proofs/PerpBackingProofs.v", "Run/PerpBackingRun.v", "Props/C09.v"],
     rule="the shared ledger histories (see C01): perpetual long/short opens with uusdc or uatom collateral, leverage 1.2-10, consolidating re-opens, partial/full closes, "
          "third-party close-positions (liquidate / stop-loss / take-profit), interest and funding settlement over block gaps up to a day, interleaved with swaps, joins/exits and "
-         "oracle price moves; every step's MTP store changes are replayed through the Coq machine and the pool's 12 aggregates + open counter compared; reserve >= custody is "
-         "evaluated on the real state after every tx and block; non-trivial = at least one successful tx",
-    trusted_base=["MTP field deltas are read from the MTP store before/after each step (implementation-resolved amounts)"],
+         "oracle price moves; every step's MTP store changes are replayed through the Coq machine and the pool's 12 aggregates + open counter compared; for custody backing every "
+         "step is classified (bank events, perpetual events, MTP store, pool aggregates) into the backing model's units (amm operation + hook check, open / consolidation, user close, "
+         "ClosePositions items) and replayed: the model must accept every transaction the implementation accepted and reproduce reserve, long/short custody, long collateral and short "
+         "liabilities of both assets; a directed history drives the pool to reserve = custody + 1000 and the clock to the second at which a long's settlement leaves open interest 0; "
+         "reserve >= custody is evaluated on the real state after every tx and block; non-trivial = at least one successful tx",
+    trusted_base=["MTP field deltas are read from the MTP store before/after each step (implementation-resolved amounts)", "backing replay: amounts (interest, funding take, closing custody, repay amount) are read from the perpetual events / MTP fields / bank events; the harness delivers a block's transactions before that block's begin blockers"],
     modelled="perpetual pool bookkeeping as per-field sum ledgers; pricing, interest, funding and health arithmetic are implementation-resolved; " + COMMON_MODELLED,
     level_text="Theorems (Coq, closed): for EVERY history of MTP creations, paired field/aggregate moves with any signed amounts and destructions, every aggregate = sum over stored "
-               "MTPs and counter = number of stored MTPs (induction over the history). Custody backing is PARTIAL (C09_custody_backed_partial; the full statement and what is "
-               "missing are in Props/C09.v) and is additionally evaluated on the real state. Tied to the code by replaying every step's observed MTP changes of generated "
-               "histories on the real app and diffing aggregates/counter.",
-    level_note="Trusted: Coq kernel+VM; the Go harness. Custody-backed part is partial.",
-    assumptions=["single perpetual pool (the fixture's oracle pool) with assets uusdc/uatom"],
+               "MTPs and counter = number of stored MTPs (induction over the history). Custody backing: for EVERY history of transactions (amm operations with their hook check, opens, "
+               "consolidations, user closes, arbitrary amounts) and MsgClosePositions messages whose items are all-or-nothing (as they are since fix: 85af696), reserve >= total custody for every asset at every boundary "
+               "(C09_custody_backed); funding distribution never raises custody because its amount is read with start block = current block (C09_funding_distribution_is_zero). The code BEFORE "
+               "fix: 85af696 ran ClosePositions items without a cache context: C09_custody_backed_refuted is a history that ends unbacked (reproduced on the real application by the directed history, "
+               "signature C09:custody-not-backed:close-positions-item-aborts-after-interest-transfer), C09_custody_backed_asis covers every history in which no item leaves a transfer behind. "
+               "Tied to the code by replaying every step of the generated histories through both machines and diffing aggregates/counter and reserve/custody numbers.",
+    level_note="Trusted: Coq kernel+VM; the Go harness. Custody backing: full theorem for the code as it is (atomic ClosePositions items since fix: 85af696), refuted for the code before it.",
+    assumptions=["single perpetual pool (the fixture's oracle pool) with assets uusdc/uatom", "a position's closing custody handed to Repay is non-negative (per-MTP custody non-negative, as in C09_aggregates)", "the pool account holds at least the pool reserve (C01)"],
 )
